@@ -248,9 +248,73 @@ fn half_given_group(case: &mut Case) {
     std::env::remove_var(&var);
 }
 
+/// (E) an adjacent group whose first member is backed by a variable: with the member absent from
+/// the line and the variable set, the variable's value is used like anywhere else
+fn adjacent_group_led_by_variable(case: &mut Case) {
+    let mut rng = case.rng(5);
+    let var = format!("BPAF_VERIF_ADJ_{}", case.index % 83);
+    let mut an = Names::long("alpha");
+    an.envs = vec![var.clone()];
+    let a = Spec::Item(Item {
+        id: 1,
+        names: an,
+        help: None,
+        leaf: Leaf::Arg {
+            ty: Ty::U32,
+            metavar: "A".into(),
+            adjacent: false,
+        },
+    });
+    let bsw = Spec::Item(Item {
+        id: 2,
+        names: Names::long("beta"),
+        help: None,
+        leaf: Leaf::Switch,
+    });
+    let g = Spec::Adj(vec![a, bsw]);
+    let optional = rng.chance(1, 2);
+    let g = if optional {
+        Spec::wrap(W::Optional { catch: false }, 3, g)
+    } else {
+        g
+    };
+    let b = Bench::new(case, OptSpec::plain(Spec::Seq(vec![g])));
+    let named = RunOpts {
+        name: Some("harnesschild".to_string()),
+        ..RunOpts::default()
+    };
+    std::env::set_var(&var, "12");
+    let argv: Vec<Vec<u8>> = if rng.chance(1, 2) {
+        Vec::new()
+    } else {
+        vec![b"--beta".to_vec()]
+    };
+    let class = "adjacent-group-led-by-variable";
+    let (out, _) = b.run_opts(case, &argv, class, &named, 25);
+    std::env::remove_var(&var);
+    let uses_variable = matches!(&out, Outcome::Value(v) if v.show().contains("12"));
+    if !uses_variable && !matches!(out, Outcome::Panic(_) | Outcome::FuelExhausted) {
+        case.rep.violation(
+            "adjacent-group-first-member-ignores-variable",
+            "fallback",
+            case.index,
+            b.detail(
+                &argv,
+                class,
+                &format!("a value in which --alpha is 12 ({}=12, --alpha is not on the line)", var),
+                &out,
+            ),
+        );
+    }
+}
+
 pub fn run_case(case: &mut Case) {
     if case.index % 8 == 5 {
-        half_given_group(case);
+        if (case.index / 8) % 4 == 3 {
+            adjacent_group_led_by_variable(case);
+        } else {
+            half_given_group(case);
+        }
         return;
     }
     let mut rng = case.rng(0);
